@@ -56,6 +56,37 @@ class Pristine(object):
             pass
 
 
+def formula_snapshot(obj):
+    """Tree, print, heights and (where the accessor is stable) the identity of every node and
+    children list of a formula object."""
+    nodes = fm.all_nodes(obj)
+    stable = all(n.subformulas() is n.subformulas() for n in nodes)
+    return {
+        'tree': fm.structure(obj),
+        'print': str(obj),
+        'heights': [getattr(n, 'height', None) for n in nodes],
+        'node_ids': [id(n) for n in nodes],
+        'list_ids': [id(n.subformulas()) for n in nodes] if stable else None,
+        'attrs': [sorted(k for k in vars(n)) for n in nodes],
+    }
+
+
+def global_state():
+    """Interpreter-wide state a call has no business changing."""
+    import os
+    import random
+    import sys
+    import warnings
+    return {
+        'recursionlimit': sys.getrecursionlimit(),
+        'random': hash(random.getstate()),
+        'environ': hash(tuple(sorted(os.environ.items()))),
+        'cwd': os.getcwd(),
+        'warnings': len(warnings.filters),
+        'path': tuple(sys.path),
+    }
+
+
 class World(object):
     def __init__(self):
         self.structs = []     # [kripke, snapshot, K, naming]
@@ -67,6 +98,8 @@ class World(object):
         self.counts = {}
         self.calls = []       # (struct index) history, to detect interleavings
         self.check_ops = []   # earlier check/clone operations, for 'repeat'
+        self.globals0 = global_state()
+        self.parsers = {}
 
     def _bump(self, k):
         self.counts[k] = self.counts.get(k, 0) + 1
@@ -82,7 +115,7 @@ class World(object):
             _, objlang, t = op
             t = fm.from_json(t)
             obj = fm.to_lib(t, fm.lang(objlang))
-            self.forms.append([obj, t, str(obj), objlang])
+            self.forms.append([obj, t, str(obj), objlang, formula_snapshot(obj)])
         elif kind == 'fair':
             self.fairs.append(op[1])
         elif kind == 'mutate':
@@ -114,7 +147,7 @@ class World(object):
 
     def _check(self, i, j, k, as_text, checker, clone):
         kripke, snap, K, naming, how_ = self.structs[i]
-        obj, t, printed, objlang = self.forms[j]
+        obj, t, printed, objlang, fsnap = self.forms[j]
         F = self.fairs[k]
         L = fm.lang(checker)
         target = kripke.clone() if clone else kripke
@@ -128,6 +161,14 @@ class World(object):
             self.flags.add('call with fairness constraints')
         if checker == 'CTLS' and fm.quant_depth(t) >= 2:
             self.flags.add('CTL* call with nested quantifiers')
+        f_before = [set(P) for P in kw['F']] if F is not None else None
+        probe = None
+        if as_text and (i + j) % 2 == 0:
+            # the caller's own parser object through the documented `parser=` argument
+            if checker not in self.parsers:
+                self.parsers[checker] = L.Parser()
+            kw['parser'] = self.parsers[checker]
+            probe = kw['parser']
         try:
             with core.quiet():
                 res = L.modelcheck(target, arg, **kw)
@@ -141,6 +182,16 @@ class World(object):
             self.last = None
         key = (i, j, checker, k, as_text)
         problem = None
+        if f_before is not None and [set(P) for P in kw['F']] != f_before:
+            return 'the caller\'s fairness argument was modified: %r -> %r' % (f_before, kw['F'])
+        if probe is not None:
+            # the caller's parser still parses as before
+            try:
+                ptxt = 'A G (p --> F q)' if checker != 'CTL' else 'A G (p --> A F q)'
+                if fm.structure(probe(ptxt)) != fm.structure(L.Parser()(ptxt)):
+                    return 'the caller\'s parser object parses differently after %s.modelcheck used it' % checker
+            except Exception as e:
+                return 'the caller\'s parser object is broken after %s.modelcheck used it: %s' % (checker, e)
         # the same query in a process without history (fresh fork of a pristine interpreter)
         nm = graphs.NAMINGS[naming]
         back = dict((nm(s), s) for s in range(K['n']))
@@ -182,14 +233,21 @@ class World(object):
             d = km.snapshot_diff(snap, km.snapshot(kripke))
             if d:
                 return 'structure #%d was modified: %s' % (idx, d)
-        for idx, (obj, t, printed, objlang) in enumerate(self.forms):
+        for idx, (obj, t, printed, objlang, fsnap) in enumerate(self.forms):
             try:
-                if fm.structure(obj) != t:
-                    return 'formula #%d was modified: now %r' % (idx, fm.structure(obj))
-                if str(obj) != printed:
-                    return 'formula #%d prints differently: %r -> %r' % (idx, printed, str(obj))
+                now = formula_snapshot(obj)
             except Exception as e:
                 return 'formula #%d unreadable: %s' % (idx, e)
+            # hidden caches (extra attributes) and rebuilt-but-equal children lists are not counted as
+            # changes of the caller's formula: only its tree, print, heights and node objects are
+            for key in ('tree', 'print', 'heights', 'node_ids'):
+                if now[key] != fsnap[key] and now[key] is not None and fsnap[key] is not None:
+                    return 'formula #%d (%s) was modified: %s changed from %r to %r' % (
+                        idx, printed, key, fsnap[key], now[key])
+        g = global_state()
+        if g != self.globals0:
+            diff = [k for k in g if g[k] != self.globals0[k]]
+            return 'interpreter-wide state changed: %s' % diff
         return None
 
 
@@ -395,7 +453,9 @@ def run(ctx):
                 '/ formula / fairness list, check(i, j, F or None, text or object, checker), '
                 'clone-and-check, repeat an earlier call (directly or on a clone), mutate the last returned set.  Exceptions are outcomes.  '
                 'Invariant after every rule: every structure equals its deep snapshot (states, '
-                'transitions, contents AND identity of every label and successor set, S0), every '
+                'transitions, contents AND identity of every label and successor set, S0, the labelling dict), every '
+                'formula object is unchanged (tree, print, heights, identity of every node), the caller\'s F and parser objects and interpreter-wide state (recursion limit, random state, '
+                'environment, sys.path) are unchanged, every '
                 'formula has the same tree and print; every call is ALSO made in a freshly forked child of an '
                 'interpreter that has never called the library (no history) and must give the same outcome; '
                 'every repeated (structure, formula, checker, '
